@@ -279,9 +279,8 @@ func (w *World) RunStep(i int, st *Step) {
 	case "downgrade":
 		d["sid"] = st.Sid
 		w.Emit("drive", d)
-		if up {
-			res = "skipped"
-		} else if err := w.downgradeToV6(st.Sid); err != nil {
+		w.StopNode() // the rewrite happens while the process is down (an upgrade from a release that spoke protocol 6)
+		if err := w.downgradeToV6(st.Sid); err != nil {
 			res = "err:" + err.Error()
 		}
 	case "policy":
@@ -326,7 +325,7 @@ func (w *World) downgradeToV6(label string) error {
 		return fmt.Errorf("unknown swap")
 	}
 	d := w.disk()
-	return d.db.Update(func(tx *bbolt.Tx) error {
+	err := d.db.Update(func(tx *bbolt.Tx) error {
 		b := tx.Bucket([]byte("swaps"))
 		if b == nil {
 			return fmt.Errorf("no bucket")
@@ -352,9 +351,35 @@ func (w *World) downgradeToV6(label string) error {
 			return err
 		}
 		c.Version = 6
-		w.Emit("downgraded", Ev{"sid": label})
 		return b.Put(key, out)
 	})
+	if err != nil {
+		return err
+	}
+	// a legacy swap's output was built with the legacy CSV: the (abstract) Liquid script of this swap's opening
+	// transaction follows the record, as if the swap had been negotiated by the old release
+	if lc := w.Chain["lbtc"]; lc != nil && c.MePub != "" {
+		lc.mu.Lock()
+		for _, tx := range lc.Txs {
+			for i := range tx.Outs {
+				o := &tx.Outs[i]
+				if strings.HasPrefix(o.Script, "S|") && strings.Contains(o.Script, c.MePub) && strings.HasSuffix(o.Script, "|10080") {
+					o.Script = strings.TrimSuffix(o.Script, "|10080") + "|60"
+				}
+			}
+		}
+		lc.mu.Unlock()
+	}
+	st, err := swap.NewBboltStore(d.db)
+	if err != nil {
+		return err
+	}
+	sm, err := st.GetData(id)
+	if err != nil {
+		return err
+	}
+	w.Emit("downgraded", Ev{"sid": label, "rec": w.project(sm)})
+	return nil
 }
 
 var _ = swap.PEERSWAP_PROTOCOL_VERSION
